@@ -33,7 +33,7 @@ Entry(ty, name, tags, src, val, cnt) == [ty |-> ty, name |-> name, tags |-> tags
 EntryPool ==
   {Entry("counter", "c", tg, src, v, 0) : tg \in {"none", "two"}, src \in {"", "h1"}, v \in {"neg", "zero", "huge"}} \cup
   {Entry("gauge", "g", "one", src, v, 0) : src \in {"", "h1", "h2"}, v \in Vals} \cup
-  {Entry("timer", "t", tg, "h1", v, cnt) : tg \in {"none", "one"}, v \in {"empty", "one-nan", "three-mixed", "two-inf"}, cnt \in {"len", "ten", "frac"}} \cup
+  {Entry("timer", "t", tg, "h1", v, cnt) : tg \in {"none", "one"}, v \in {"empty", "one-nan", "three-mixed", "two-inf", "many-same"}, cnt \in {"len", "ten", "frac", "zero"}} \cup
   {Entry("set", "s", "two", src, v, 0) : src \in {"", "h1"}, v \in {"size0", "size1", "size2-utf8"}}
 Compressions == {[type |-> "none", level |-> 0]} \cup {[type |-> t, level |-> l] : t \in {"zlib", "lz4"}, l \in 0..9}
 EventPool == {[title |-> ti, text |-> tx, date |-> d, src |-> s, agg |-> a, stype |-> a, tags |-> tg, pri |-> p, alert |-> al] :
